@@ -85,9 +85,10 @@ def check(prog, ctx):
     for inst in INSTANCES:
         if inst.get('c04'):
             run_instance(prog, ctx, inst, wrappers, 'C04.a', 'C04.d', 'C04.d', 'C04.d')
-    vector_size_invariant(prog, ctx)
-    schemas(prog, ctx)
-    spellings(prog, ctx)
+    ctx.sub('vector_size_invariant', vector_size_invariant, prog, ctx)
+    ctx.sub('copy_completeness', copy_completeness, prog, ctx)
+    ctx.sub('schemas', schemas, prog, ctx)
+    ctx.sub('spellings', spellings, prog, ctx)
 
 
 def vector_size_invariant(prog, ctx):
@@ -136,6 +137,47 @@ def vector_size_invariant(prog, ctx):
                'the size invariant of Vector is not established: %s' % '; '.join(bad[:3]))
     if ok:
         SIZE_SUBST[Symbol('len(this.components)', integer=True, nonnegative=True)] = dim
+
+
+def copy_completeness(prog, ctx):
+    """Copy assignment / copy construction of Vector and Matrix: on every path every data member of the object ends up
+    equal to the corresponding member of the source (unchanged is fine only where the path condition says they are
+    already equal).  A forgotten member leaves an object whose shape fields disagree with its storage."""
+    R = 'C04.b'
+    kk = Symbol('k', integer=True)
+    for cls in ('Vector', 'Matrix'):
+        c = prog.classes.get(L + cls)
+        if not c:
+            continue
+        fields = [f_['name'] for f_ in c['fields']]
+        for fn in [f for f in prog.all_functions() if f.cls == L + cls and (f.name == 'operator=' or f.d.get('ctor'))
+                   and len(f.params) == 1 and f.params[0]['ty'].replace('const ', '').strip() == L + cls]:
+            src = fn.params[0]['name']
+            inst = '%s::%s:copies-every-member' % (cls, 'operator=' if fn.name == 'operator=' else 'copy-constructor')
+            probs = []
+            try:
+                outs = [o for o in Symx(prog, fn).run() if o.kind != 'exit']
+                for o in outs:
+                    ats = list(o.cond.args) if isinstance(o.cond, sp.And) else [o.cond]
+                    for f_ in fields:
+                        want = Symbol('%s.%s' % (src, f_))
+                        v = o.state.env.get('this.' + f_)
+                        if v is None:
+                            same_already = any(isinstance(a_, sp.Equality) and {str(a_.lhs), str(a_.rhs)} == {'this.' + f_, '%s.%s' % (src, f_)} for a_ in ats)
+                            if not same_already and not fn.d.get('ctor') or (fn.d.get('ctor') and True and v is None and not same_already):
+                                probs.append('on the path [%s] member `%s` is not copied' % (o.cond, f_))
+                            continue
+                        if isinstance(v, Arr):
+                            el = v.read((kk,))
+                            if el != Function('%s.%s' % (src, f_), real=True)(kk):
+                                probs.append('on the path [%s] member `%s` becomes %s' % (o.cond, f_, str(el)[:80]))
+                        elif str(v) != str(want):
+                            probs.append('on the path [%s] member `%s` becomes %s' % (o.cond, f_, str(v)[:80]))
+            except Undecided as ex_:
+                ctx.undecided(R, inst, fn, str(ex_))
+                continue
+            ctx.decide(R, inst, fn, not probs, 'every member (%s) is copied from the source on every path' % ', '.join(fields), '; '.join(probs[:3]),
+                       witness={'reproducer': 'assign a matrix of another shape to an existing object and ask for Rows()/Columns()/Transpose()'} if probs else None)
 
 
 def arr_elem(v, idx):
